@@ -136,7 +136,7 @@ class Gen:
             else:
                 text = self.rng.choice(DOC_WORDS)
             styles = ["attr"]
-            if "\n" not in text and "\r" not in text:
+            if "\n" not in text and "\r" not in text and not text.startswith("/"):      # `////…` is an ordinary comment, not a doc
                 styles.append("line")
                 styles.append("line")
             if "*/" not in text and "/*" not in text and text[:1] in (" ", "a", "A", "n") and not text.endswith("/") and "\r" not in text:
